@@ -23,15 +23,22 @@ def ptFromBytes (curve : String) (b : Bytes) : R Pt :=
     let wrap (o : Option WPoint) : R Pt := match o with
       | some (.aff x y) => pure (.w c (.aff x y))
       | _ => throw .value
-    if curve == "secp256k1" then
-      if b.length = 64 then wrap (c.decode (4 :: b))
-      else if b.length = 33 then wrap (c.decode b)
-      else throw .value
+    -- every ECDSA point class (coincurve and python-ecdsa): raw x‖y, compressed, uncompressed, hybrid 06/07 with matching parity
+    if b.length = 64 then wrap (c.decode (4 :: b))
     else
-      -- ecdsa: raw x‖y, compressed, uncompressed (hybrid encodings are outside the modelled domain)
-      if b.length = 64 then wrap (c.decode (4 :: b))
-      else if b.length = 33 || (b.length = 65 && b.head? = some 4) then wrap (c.decode b)
-      else throw .value
+      match c.decode b with
+      | some p => wrap (some p)
+      | none =>
+        if b.length = 65 then
+          match b with
+          | pfx :: rest =>
+            if pfx = 6 || pfx = 7 then
+              match c.decode (4 :: rest) with
+              | some (.aff x y) => if (y % 2 = 1) = (pfx = 7) then wrap (some (.aff x y)) else throw .value
+              | _ => throw .value
+            else throw .value
+          | [] => throw .value
+        else throw .value
   | none =>
     if isEdName curve then
       match edBytesOnCurve b with
